@@ -51,6 +51,21 @@ CHECKS = {
     "C02": dict(level="exploration", ref="5 (C02), 4.9",
                 technique="grammar-automaton-generated and mutated inputs compiled on the ASan/UBSan build; result shapes validated by TLC against TheoIface.tla (ResultOK); abort/timeout events have no explaining action",
                 text="About 2*10^5 inputs per quick run: every state of the TheoParse automaton within the bounds (sentences, viable prefixes cut off by end of file, refused extensions also followed by a valid continuation), hand-written truncations (argument list ending in a comma, header without ports, DEFINE cut off at every position, stray template/insertion tokens, numbers of any length, empty and absent files), random byte strings and word soups, 1-4 token mutations of generated programs with macros and includes. Each compilation runs on the sanitizer build (1 GB stack, LeakSanitizer at exit, per-batch timeout); one event per compilation is validated by TLC against ResultOK (correct <=> no errors; every error has a message and a location inside a supplied file, the hidden macro file or the '-' placeholder)."),
+    "C09": dict(level="model_checking", ref="5 (C09), 4.6",
+                technique="TLC enumeration with TheoMacro.tla (declarative match relation, Best = priority > leftmost > longest, all rewriting paths) + S->I replay of every path step by step through apply_macros(budget k); end-to-end trace validation of macro-heavy programs against TheoSem",
+                text="For 8 fixed macro families TLC enumerates all streams of <= 4-5 (thorough 6) tokens over the family's vocabulary and every rewriting path, checking UniquePerLoc and BestAgree in the model; the real engine is run on scan -> extract_macros -> apply_macros with budgets 1..k and its k-th stream must equal the k-th specification stream on some path (kinds and texts, temporaries up to a bijective renaming), the final error set must agree. Macro-heavy generated programs are additionally validated end to end against the reference semantics."),
+    "C10": dict(level="model_checking", ref="5 (C10), 4.6",
+                technique="TLC enumeration with TheoMacro.tla (temporaries named by (n, macro, pass)) + S->I replay requiring a bijection real spelling <-> specification name on every path, in four source layouts; end-to-end validation of nested macro uses against TheoSem",
+                text="Families with temporaries (a macro used inside its own <P> slot and twice in a sequence; two macros of equal priority with the same temporary numbers) are enumerated over all streams of <= 5 (thorough 6) tokens; every rewriting path is replayed with budgets 1..4 in four layouts (definition per line, one file per macro with equal line numbers, all definitions on one line, 77-character file name). The map from real spellings to specification names must be a bijection on every path - equal n in one step the same name, different steps different names - and no spelling may be a legal identifier. Nested IF-THEN-ELSE/REPEAT uses in generated programs are validated end to end."),
+    "C11": dict(level="model_checking", ref="5 (C11), 4.6",
+                technique="TLC model checking of TheoMacro.tla with budgets 1..6 (PassBound, GrowthBound) on divergent and finite macro families + S->I replay of the k-series and of the too-many-substitutions rule; compile() on divergent sets; budget 1024",
+                text="Self-reproducing, growing, mutually recursive, finite and ordinary families x budgets 1..6 x all streams of <= 3 (thorough 4) tokens: in the model never more than `budget` steps and growth <= budget x body length; the real k-series must follow a specification path, the error must be present when a match remains at the end of the budget, absent when rewriting ended early, optional when exactly the budget was needed. Divergent macro sets through compile() must come back marked incorrect; apply_macros with budget 1024 on the growing family must return within the bound."),
+    "C12": dict(level="model_checking", ref="5 (C12), 4.7",
+                technique="TLC enumeration of canonical LR(1) prefix-mode conflict verdicts (TheoPattern.tla) for all macro patterns up to length 3-4 (thorough: 4 complete, 5 sampled) + S->I replay into the real macro engine",
+                text="Every pattern of <= 3 symbols and half (thorough: all) of the patterns of length 4 over the five slot kinds and six literal kinds gets its verdict from the canonical LR(1) collection of slot grammar + MACRO -> pattern in prefix mode. Each pattern is defined in an included file between two unrelated usable macros and used once: the non-linear error must be reported at the file and line of the pattern's first token iff there is a conflict; a rejected macro's use stays unrewritten; the unrelated macros defined before and after it are applied in both cases; an accepted pattern's use is rewritten."),
+    "C13": dict(level="model_checking", ref="5 (C13), 4.7",
+                technique="TLC model checking of TheoLR1.tla (in-model theorem: canonical LR(1) driver <=> bounded derivability, unique tree, ambiguity => conflict, FIRST) over all small grammars + S->I replay into the real LRParser template on the ASan/UBSan build",
+                text="All 10822 grammars over S, A / a, b with <= 3 rules (thorough 4) and right-hand sides <= 2, plus ~5400 chain grammars over four non-terminals (unit and epsilon rules), each with all inputs of <= 4 (3) terminals in full and prefix mode: TLC proves the theorem inside the model for every grammar, then the real generator and parser are compared: no conflict reported => the parser accepts exactly the (prefix) language given by the declarative Lang and returns the fold of the unique tree (children last symbol first); ambiguous => a conflict is reported; Grammar::first_sets equal the textbook fixpoint. Conflicts reported where canonical LR(1) has none are counted, not violations."),
 }
 
 NOT_YET = "check not built yet in this session (construction order in DESIGN.md section 10); will be claimed when its check exists"
